@@ -37,7 +37,7 @@ func (h *harness) differs(family, base string, doc *Node) bool {
 	if err != nil || !ok {
 		return false
 	}
-	res := dec(text, base, false)
+	res := dec(text, base, 0)
 	if res.panic != "" || res.err != "" {
 		return true
 	}
